@@ -327,6 +327,9 @@ class C05Check:
         if main_phase is not None:
             probes["main_phase_runs"] = 1
             probes["main_phase_" + main_phase["extra"]] = 1
+            for k, n in main_phase["out"].sim.fault_counts.items():
+                if k.startswith(("signal_", "interrupt_")):
+                    faults[k] = faults.get(k, 0) + n
         for out, observed in runs:
             for k, n in out.sim.fault_counts.items():
                 faults[k] = faults.get(k, 0) + n
@@ -408,8 +411,33 @@ class C05Check:
             if vec["cache"]:
                 argv.append("--cache-solver")
 
+            # SIGINT / SIGTERM at a seeded scheduling point of the main thread: the handler _main registered runs on its stack
+            import signal as _signal
+
+            signame = ch.choose([None, None, "SIGINT", "SIGTERM"], "mp.signal")
+            sig_steps = ch.choose([ch.pick(60, "mp.sigsteps.a"), ch.pick(1500, "mp.sigsteps.b")], "mp.sigsteps")
+            handlers = {}
+            sigstate = {"delivered": False, "too_early": False}
+
+            class SignalProxy:
+                def __getattr__(self, name):
+                    return getattr(_signal, name)
+
+                def signal(self, signum, handler):
+                    handlers[int(signum)] = handler
+
+            def deliver():
+                num = int(getattr(_signal, signame))
+                h = handlers.get(num)
+                if h is None:
+                    sigstate["too_early"] = True  # before _main installed its handlers: nothing of halmos runs yet
+                    return
+                sigstate["delivered"] = True
+                h(num, None)
+
             def main():
                 orig_rm = hm.run_message
+                orig_signal = hm.signal
 
                 def tee(ctx, sevm, message, dyn_params):
                     n = 0
@@ -419,16 +447,30 @@ class C05Check:
                         yield ex
 
                 hm.run_message = tee
+                hm.signal = SignalProxy()
                 try:
                     return hm._main(argv)
                 finally:
                     hm.run_message = orig_rm
+                    hm.signal = orig_signal
 
-            out = R.run_under_sim(ch, main, solver=solver, plan=plan, unknown_rate=1.0, max_steps=40000)
+            out = R.run_under_sim(ch, main, solver=solver, plan=plan, unknown_rate=1.0, max_steps=40000,
+                                  interrupt=(sig_steps, deliver) if signame else None)
         finally:
             shutil.rmtree(root, ignore_errors=True)
         vio = []
         res = out.results
+        if sigstate["delivered"]:
+            out.sim.fault("signal_" + signame)
+            want = 128 + int(getattr(_signal, signame))
+            if out.outcome == "deadlock":
+                vio.append(dict(oracle="C05:hang", disc="signal-handler",
+                                detail=f"{signame} at step {sig_steps}: halmos never exited; parked {out.sim.deadlock_info}"))
+            elif out.outcome == "done" and not (isinstance(out.exception, SystemExit) and out.exception.code == want):
+                vio.append(dict(oracle="C05:exitcode", disc="signal-exit",
+                                detail=f"{signame} at step {sig_steps}: expected the process to exit with {want}, got "
+                                       f"exception {out.exception!r} / result {getattr(res, 'exitcode', None)}"))
+            return dict(violations=vio, out=out, extra=extra)
         if out.outcome == "deadlock":
             vio.append(dict(oracle="C05:hang", disc="main-deadlock", detail=f"_main never returned: {out.sim.deadlock_info}"))
         elif out.outcome == "done":
